@@ -130,7 +130,7 @@ def run_file(item):
     data, _i, _l, ref = G.encode(hist, seed=seed)
     res = {'counters': {'files': 1, 'configs': 0, 'accesses': 0, 'short_read_runs': 0, 'nontrivial': 0}, 'outcomes': {},
            'violations': [], 'samples': []}
-    tmp = tempfile.mkdtemp(prefix='verif_c03_', dir='/dev/shm' if os.path.isdir('/dev/shm') else None)
+    tmp = H.scratch('verif_c03_')
     try:
         with open(os.path.join(tmp, 'f.tdms'), 'wb') as f:
             f.write(data)
